@@ -99,7 +99,12 @@ def generate(rng, tier):
     from ..common import draw_schedule
 
     sched = draw_schedule(rng, ab, gen, identity=rng.random() < 0.15)
-    faults = {"evict": rng.random() < 0.7, "abort": rng.random() < 0.35, "counter": rng.random() < 0.3}
+    faults = {"evict": rng.random() < 0.7, "abort": rng.random() < 0.35, "counter": rng.random() < 0.3,
+              "noise": rng.random() < 0.35}
+    # the user's grammar may already carry library-generated fresh names
+    pre = rng.choice([None, None, None, "binarize", "separate_terminals", "separate_start", "cnf"])
+    if mode == "poly" and pre == "cnf":
+        pre = "binarize"
     is_lm = kind in LM_KINDS or (multi is not None and any(k in LM_KINDS for k in multi))
     T = rng.randint(5, 24 if tier == "quick" else 40)
     P = rng.choice([1, 2, 2, 3, 4])
@@ -185,9 +190,11 @@ def generate(rng, tier):
             ops.append({"op": "evict"})
         elif r < 0.86 and faults["counter"]:
             ops.append({"op": "counter", "k": rng.choice([1, 5, 1000, rng.getrandbits(24)])})
+        elif r < 0.90 and faults["noise"]:
+            ops.append({"op": "noise", "what": rng.randrange(6)})
         else:
             query(ctx)
-    return {"property": ID, "kind": kind, "grammar": ab, "schedule": sched, "ops": ops}
+    return {"property": ID, "kind": kind, "grammar": ab, "schedule": sched, "ops": ops, "pre": pre}
 
 
 def _generate_long(rng, tier, kind):
@@ -286,12 +293,43 @@ def _build(kind, cfg):
     raise ValueError(kind)
 
 
-def _user_cfg(ab, pres, mode):
+def _user_cfg(ab, pres, mode, pre=None):
     cfg, tmap = gen.build_cfg(ab, pres, mode)
     if ab.get("normalize"):
         from genlm.grammar.cfglm import locally_normalize
         cfg = locally_normalize(cfg)
+    if pre == "cnf":
+        cfg = cfg.cnf
+    elif pre:
+        cfg = getattr(cfg, pre)()
     return cfg, tmap
+
+
+def _noise(what):
+    """Unrelated library activity in the same process (other grammars being
+    parsed from text, other models being built): results are ignored, only its
+    effect on later answers of the object under test matters."""
+    from genlm.grammar import CFG, Float
+    from genlm.grammar.cfglm import BoolCFGLM
+    from genlm.grammar.parse.cky import CKYLM
+    from genlm.grammar.parse.earley import EarleyLM
+
+    text = "0.4: S -> a S b\n0.3: S -> S S\n0.3: S -> c"
+    if what == 0:
+        CFG.from_string(text, Float).cnf
+    elif what == 1:
+        EarleyLM.from_string("0.5: S -> a S\n0.5: S -> b").p_next(("a",))
+    elif what == 2:
+        g = CFG.from_string(text, Float)
+        g.prefix_grammar
+        g.separate_terminals().binarize().separate_start()
+    elif what == 3:
+        BoolCFGLM.from_string("1: S -> a S a\n1: S -> b").p_next(("a",))
+    elif what == 4:
+        CKYLM.from_string("0.5: S -> a S\n0.5: S -> b").p_next(("a",))
+    else:
+        g = CFG.from_string("1: S -> A B C D\n1: A -> a\n1: B -> b\n1: C ->\n1: D -> d\n1: S -> S S S", Float)
+        g(("a", "b", "d"))
 
 
 def _drive(coro):
@@ -556,7 +594,7 @@ def execute(sc):
     # the shared object and the user's grammar it was built from
     try:
         with libcall(f"{kind}:build"):
-            user_cfg, tmap = _user_cfg(ab, pres, mode)
+            user_cfg, tmap = _user_cfg(ab, pres, mode, sc.get("pre"))
             tr = tr_for(tmap)
             snap0 = _snapshot(user_cfg)
             sut = _build(kind, user_cfg)
@@ -579,7 +617,7 @@ def execute(sc):
         keep = _counter()
         try:
             with libcall("fresh-object"):
-                cfg2, tmap2 = _user_cfg(ab, pres, mode)
+                cfg2, tmap2 = _user_cfg(ab, pres, mode, sc.get("pre"))
                 obj2 = _build(kind, cfg2)
                 r = ("ok", _canon(_do_query(kind, obj2, op, tr_for(tmap2), cfg2), mode))
         except SimInterrupt:
@@ -593,7 +631,7 @@ def execute(sc):
     if build_exc is not None:
         chaos.begin(0, epoch=False)
         try:
-            cfg2, _ = _user_cfg(ab, pres, mode)
+            cfg2, _ = _user_cfg(ab, pres, mode, sc.get("pre"))
             _build(kind, cfg2)
             out.violation("history:build-exc", sig={"kind": kind}, detail=short(repr(build_exc), 200))
         except Exception as e2:
@@ -619,6 +657,16 @@ def execute(sc):
                 last_evict = i
             elif kind == "cfg":
                 pass
+            last_fault_at = i
+            continue
+        if name == "noise":
+            chaos.begin(0, epoch=False)
+            try:
+                with libcall("noise"):
+                    _noise(int(op.get("what", 0)))
+            except Exception as e:
+                out.probe("noise_raised")
+            out.probe("fault_noise_other_library_activity")
             last_fault_at = i
             continue
         if name == "counter":
